@@ -62,13 +62,47 @@ def sample_program(rnd, pid):
     for s in (N("Z"), N("Y")):
         closed += [U("S1", s), U("S2", s), U("S1", U("S1", s)), U("S1", U("S2", s)), U("S2", U("S1", s)), U("S2", U("S2", s)), U("S1", U("S1", U("S2", s)))]
     goals = [{"tr": rnd.choice((1, 2, 3)), "ty": rnd.choice(closed)} for _ in range(10)]
-    return {"id": pid, "impls": impls, "goals": goals}
+    return {"id": pid, "impls": impls, "goals": goals, "open": OPEN_CONJ}
 
-OPEN_GOALS = ["exists<T> { T: H }", "exists<T> { T: P }", "exists<T> { T: G }", "exists<T> { T: G, T: H }", "exists<T> { T: H, T: P }", "exists<T> { T: P, T: G }",
-              "exists<T> { T: H, T: G }", "exists<T> { T: P, T: H }", "exists<T> { T: G, T: P }",
-              "exists<T> { S1<T>: H }", "exists<T> { S2<T>: G }", "exists<T> { S1<T>: G, T: P }", "exists<T> { S2<T>: H, T: H }",
-              "forall<T> { if (T: P) { S1<T>: H } }", "forall<T> { if (T: H) { S2<T>: G } }", "forall<T> { if (T: G; T: P) { T: H } }",
-              "exists<T> { S1<S2<T>>: H }"]
+def C(tr, ty): return {"tr": tr, "ty": ty}
+# goals `exists<T> { .. }` as conjunct lists (H = 1, P = 2, G = 3): ImplMC.tla computes their solutions among the closed types of depth <= 3
+OPEN_CONJ = [[C(1, T)], [C(2, T)], [C(3, T)], [C(3, T), C(1, T)], [C(1, T), C(2, T)], [C(2, T), C(3, T)],
+             [C(1, T), C(3, T)], [C(2, T), C(1, T)], [C(3, T), C(2, T)],
+             [C(1, U("S1", T))], [C(3, U("S2", T))], [C(3, U("S1", T)), C(2, T)], [C(1, U("S2", T)), C(1, T)], [C(1, U("S1", U("S2", T)))]]
+OPEN_GOALS = ["exists<T> { %s }" % ", ".join("%s: %s" % (show(c["ty"]), TR[c["tr"]]) for c in conj) for conj in OPEN_CONJ] + \
+             ["forall<T> { if (T: P) { S1<T>: H } }", "forall<T> { if (T: H) { S2<T>: G } }", "forall<T> { if (T: G; T: P) { T: H } }"]
+
+def parse_ty(s):
+    """`S1<S2<Z>>` / `S1<^0.0>` -> term (a bound variable becomes T)"""
+    s = s.strip()
+    if s.startswith("^"): return T
+    if "<" in s:
+        c, rest = s.split("<", 1)
+        return U(c, parse_ty(rest[:-1]))
+    return N(s)
+def instance_of(t, pat):
+    if pat["c"] == "T": return True
+    return t["c"] == pat["c"] and len(t["a"]) == len(pat["a"]) and all(instance_of(x, y) for x, y in zip(t["a"], pat["a"]))
+def depth(t): return 0 if not t["a"] else 1 + depth(t["a"][0])
+def answer_pattern(text):
+    """the pattern an answer text gives for ?0, or None"""
+    import re
+    m = re.search(r"\?0 := ([^,\]]+)", text or "")
+    return parse_ty(m.group(1)) if m else None
+
+def judge_open(r, sols, maxdepth=3):
+    """the C01 statement on an answer to a goal with one unknown, given its solutions among the closed types of depth <= maxdepth;
+    returns a description of the violation or None"""
+    cls = r.get("class")
+    if cls == "None": return "No possible solution although the goal has solutions" if sols else None
+    if cls in ("Unique", "Definite"):
+        pat = answer_pattern(r.get("text"))
+        if pat is None: return None
+        missing = [s for s in sols if not instance_of(s, pat)]
+        if missing: return ("Unique answer" if cls == "Unique" else "definite guidance") + " excludes the solution " + show(missing[0])
+        if cls == "Unique":
+            if pat["c"] != "T" and "T" not in json.dumps(pat) and depth(pat) <= maxdepth and pat not in sols: return "Unique answer is not a solution"
+    return None
 
 def render(p, order, wcrev, decls_last):
     decls = ["struct Z {}", "struct Y {}", "struct S1<T> {}", "struct S2<T> {}", "trait H {}", "trait P {}", "trait G {}"]
@@ -83,20 +117,21 @@ def render(p, order, wcrev, decls_last):
 
 CFG = "SPECIFICATION Spec\nINVARIANTS FamilyCoherent OrderIrrelevant OneImplApplies Replay\nCHECK_DEADLOCK FALSE\n"
 
-def order_generic(run, tier):
+def order_generic(run, tier, nperm=None, n=None, tag="C13impl", salt=7):
+    """nperm = 1: only the soundness / completeness judgement of each answer (C01); > 1: also equality across declaration orders (C13)"""
     from concurrent.futures import ThreadPoolExecutor
-    rnd = random.Random(seed() * 31 + 7)
-    n = 150 if tier == "quick" else 1500
-    nperm = 6 if tier == "quick" else 10
+    rnd = random.Random(seed() * 31 + salt)
+    n = n or (150 if tier == "quick" else 1500)
+    nperm = nperm or (6 if tier == "quick" else 10)
     progs = [sample_program(rnd, i) for i in range(n)]
     os.makedirs(tlc.WORK, exist_ok=True)
     CH = 300
     chunks = [progs[i:i + CH] for i in range(0, len(progs), CH)]
     def mc(k):
-        inp = os.path.join(tlc.WORK, "inputs_C13impl_%d.ndjson" % k)
+        inp = os.path.join(tlc.WORK, "inputs_%s_%d.ndjson" % (tag, k))
         with open(inp, "w") as f:
             for p in chunks[k]: f.write(json.dumps(p) + "\n")
-        out = run_tlc_mc(run, "ImplMC", CFG, "C13impl%d" % k, {"INPUTS": inp}, timeout=1500, workers=2, xmx="3g")
+        out = run_tlc_mc(run, "ImplMC", CFG, "%s%d" % (tag, k), {"INPUTS": inp}, timeout=1500, workers=2, xmx="3g")
         os.unlink(inp)
         return out
     with ThreadPoolExecutor(max_workers=6) as ex: outs = list(ex.map(mc, range(len(chunks))))
@@ -108,7 +143,7 @@ def order_generic(run, tier):
         jobs, meta = [], []
         for p in progs:
             m = len(p["impls"])
-            orders = [list(range(m)), list(reversed(range(m)))]
+            orders = [list(range(m)), list(reversed(range(m)))][:nperm]
             while len(orders) < nperm:
                 o = list(range(m)); rnd.shuffle(o)
                 if o not in orders: orders.append(o)
@@ -135,6 +170,10 @@ def order_generic(run, tier):
                     exp = "Unique" if truth[gi] else "None"
                     if r.get("class") != exp:
                         run.violation(dict(base, what="closed goal: answer differs from the least-fixed-point meaning", expected=exp, observed=r.get("class")), rp); continue
+                if len(truth) <= gi < len(truth) + len(OPEN_CONJ):
+                    why = judge_open(r, recs[p["id"]]["sols"][gi - len(truth)])
+                    if why:
+                        run.violation(dict(base, what="goal with an unknown: " + why.split(" excludes the solution")[0], goal=g), dict(rp, why=why, solutions=[show(x) for x in recs[p["id"]]["sols"][gi - len(truth)]][:8])); continue
                 if r.get("limits", 0) > 0:                      # the property's proviso: the search ran into a size limit
                     nlim += 1; continue
                 ref = first.setdefault((p["id"], gi), (r.get("text"), job["program"]))
@@ -145,3 +184,60 @@ def order_generic(run, tier):
         run.extra["generic_struct_answers_beyond_size_limits_" + sname] = nlim
     run.extra["generic_struct_programs"] = len(progs)
     run.extra["generic_struct_orders_per_program"] = nperm
+
+def closed_instances(pat, maxdepth=3):
+    """closed instances of a pattern over Z, Y, S1, S2 up to the depth bound"""
+    uni = [N("Z"), N("Y")]
+    for _ in range(3): uni = uni + [U(k, t) for k in ("S1", "S2") for t in uni if U(k, t) not in uni]
+    def sub(p, x): return x if p["c"] == "T" else {"c": p["c"], "a": [sub(a, x) for a in p["a"]]}
+    if "T" not in json.dumps(pat): return [pat] if depth(pat) <= maxdepth else []
+    return [t for t in (sub(pat, x) for x in uni) if depth(t) <= maxdepth]
+
+def streams_generic(run, tier):
+    """C03 on the ImplMC family: solve_multiple streams (SLG) judged against the solutions among the closed types of depth <= 3"""
+    from concurrent.futures import ThreadPoolExecutor
+    rnd = random.Random(seed() * 37 + 23)
+    n = 150 if tier == "quick" else 1500
+    progs = [sample_program(rnd, i) for i in range(n)]
+    os.makedirs(tlc.WORK, exist_ok=True)
+    CH = 300
+    chunks = [progs[i:i + CH] for i in range(0, len(progs), CH)]
+    def mc(k):
+        inp = os.path.join(tlc.WORK, "inputs_C03impl_%d.ndjson" % k)
+        with open(inp, "w") as f:
+            for p in chunks[k]: f.write(json.dumps(p) + "\n")
+        out = run_tlc_mc(run, "ImplMC", CFG, "C03impl%d" % k, {"INPUTS": inp}, timeout=1500, workers=2, xmx="3g")
+        os.unlink(inp)
+        return out
+    with ThreadPoolExecutor(max_workers=6) as ex: outs = list(ex.map(mc, range(len(chunks))))
+    if any(o is None for o in outs): return
+    recs = {r["id"]: r for o in outs for r in gc.parse_replay(o)}
+    goals = OPEN_GOALS[:len(OPEN_CONJ)]
+    jobs = [{"id": p["id"], "program": render(p, list(range(len(p["impls"]))), False, False), "solver": gc.SLG,
+             "ops": [{"op": "multi", "goal": g, "fresh": True, "max": 40} for g in goals]} for p in progs]
+    obs = harness.run("solve", jobs, timeout=300)
+    for p, job, ob in zip(progs, jobs, obs):
+        base = {"src": "streams-generic"}
+        if ob.get("error"):
+            run.case([p["id"]]); run.violation(dict(base, what="abort-or-hang"), {"program": job["program"], "observed": ob}); continue
+        for gi, (g, m) in enumerate(zip(goals, ob["results"])):
+            sols = recs[p["id"]]["sols"][gi]
+            run.case([p["id"], gi], nontrivial=bool(sols))
+            rp = {"program": job["program"], "goal": g, "expected_solutions": [show(s) for s in sols], "observed": m}
+            if m.get("class") == "Panic":
+                run.violation(dict(base, what="solve_multiple panics", text=str(m.get("text"))[:80]), rp); continue
+            items = m.get("items", [])
+            pats = [answer_pattern("?0 := " + it["text"].split(":=", 1)[1]) if it["kind"] != "Floundered" and ":=" in it["text"] else None for it in items]
+            bad = False
+            for it, pat in zip(items, pats):
+                if it["kind"] == "Definite" and pat is not None:
+                    wrong = [t for t in closed_instances(pat) if t not in sols]
+                    if wrong: bad |= run.violation(dict(base, what="an enumerated answer has an instance that is not a solution", goal=g), dict(rp, wrong=show(wrong[0])))
+            texts = [it["text"] for it in items if it["kind"] != "Floundered"]
+            if len(set(texts)) != len(texts): bad |= run.violation(dict(base, what="an answer is yielded twice", goal=g), rp)
+            if m.get("class") == "Done" and not any(it["kind"] == "Floundered" for it in items):
+                lost = [s for s in sols if not any(pt is not None and instance_of(s, pt) for pt in pats)]
+                if lost: bad |= run.violation(dict(base, what="a solution is never yielded", goal=g), dict(rp, lost=[show(s) for s in lost][:3]))
+            if not bad: run.traces += 1
+            if sols: run.sample({"program": job["program"], "goal": g, "solutions": [show(s) for s in sols][:6], "stream": [[it["kind"], it["text"]] for it in items][:6]}, cap=3)
+    run.extra["generic_struct_programs"] = len(progs)
